@@ -308,7 +308,46 @@ func (ck *Check) acceptSetOf(rule string) *acceptSet {
 				continue
 			}
 			as.calls++
-			acc = And(acc, Implies(ctx.PC(c), ctx.Formula(c.Common().Args[0])))
+			pc, cond := ctx.PC(c), ctx.Formula(c.Common().Args[0])
+			// a check made once per row of a literal table: one instance per row
+			if l := innermostLoop(fn, c.Block()); l != nil {
+				rows, ok := ck.constTable(ctx, l)
+				if !ok {
+					ck.undecided(rule, fmt.Sprintf("validator/loop-check#%d", as.calls), ck.P.instrPos(c), funcID(fn), "a check made in a loop ranges over a literal table of the function (every row is then one check)", "loop over "+fmt.Sprint(l.Over))
+					return nil
+				}
+				over := ctx.Term(l.Over)
+				for _, row := range rows {
+					inst := func(f *Formula) *Formula {
+						f = f.Subst(func(t *Term) *Formula {
+							if t.Kind == "cmp" && t.Name == "<" && len(t.Args) == 2 && t.Args[1].Kind == "len" && t.Args[1].Args[0].Key() == over.Key() && strings.Contains(t.Args[0].String(), "rangeindex") {
+								return FTrue
+							}
+							return nil
+						})
+						return rewriteFormula(f, func(t *Term) *Term {
+							if t.Kind == "field" && len(t.Args) == 1 && t.Args[0] == row && row.Kind == "struct" {
+								if v, ok := t.Obj.(*types.Var); ok {
+									if st, ok := row.Typ.Underlying().(*types.Struct); ok {
+										for i := 0; i < st.NumFields(); i++ {
+											if st.Field(i) == v && i < len(row.Args) && row.Args[i] != nil {
+												return row.Args[i]
+											}
+										}
+									}
+								}
+							}
+							if t.Kind == "elem" && t.Args[0].Key() == over.Key() {
+								return row
+							}
+							return nil
+						})
+					}
+					acc = And(acc, Implies(inst(pc), inst(cond)))
+				}
+				continue
+			}
+			acc = And(acc, Implies(pc, cond))
 		}
 	}
 	as.formula = as.strip(acc)
@@ -880,4 +919,111 @@ func (ck *Check) lazyDelegation(fn *ssa.Function) (*types.Var, *types.Var, bool)
 		return nil, nil, false
 	}
 	return fieldOfAddr(ca), fieldOfAddr(sa), true
+}
+
+// constTable: the loop ranges over a slice literal of its function — `for _, row := range []T{…}` —
+// whose rows are all written before the loop and never afterwards. Returns one term per row (a
+// "struct" term of the stored field values for struct rows).
+func (ck *Check) constTable(ctx *Ctx, l *Loop) ([]*Term, bool) {
+	if l.Over == nil || !l.FullTraversal() {
+		return nil, false
+	}
+	sl, ok := l.Over.(*ssa.Slice)
+	if !ok || sl.Low != nil || sl.High != nil {
+		return nil, false
+	}
+	al, ok := sl.X.(*ssa.Alloc)
+	if !ok {
+		return nil, false
+	}
+	arr, ok := al.Type().(*types.Pointer).Elem().Underlying().(*types.Array)
+	if !ok {
+		return nil, false
+	}
+	n := int(arr.Len())
+	st, isStruct := arr.Elem().Underlying().(*types.Struct)
+	rows := make([]*Term, n)
+	if isStruct {
+		for i := range rows {
+			rows[i] = &Term{Kind: "struct", Name: typeName(arr.Elem()), Args: make([]*Term, st.NumFields()), Typ: arr.Elem()}
+		}
+	}
+	before := func(in ssa.Instruction) bool {
+		return !l.Blocks[in.Block()] && in.Block().Dominates(l.Header)
+	}
+	for _, r := range *al.Referrers() {
+		switch x := r.(type) {
+		case *ssa.Slice:
+			if x != sl {
+				return nil, false
+			}
+		case *ssa.IndexAddr:
+			k, ok := x.Index.(*ssa.Const)
+			if !ok || k.Value == nil {
+				return nil, false
+			}
+			idx := int(k.Int64())
+			if idx < 0 || idx >= n {
+				return nil, false
+			}
+			for _, rr := range *x.Referrers() {
+				switch y := rr.(type) {
+				case *ssa.Store:
+					if y.Addr != ssa.Value(x) || !before(y) {
+						return nil, false
+					}
+					rows[idx] = ctx.Term(y.Val)
+				case *ssa.FieldAddr:
+					if !isStruct {
+						return nil, false
+					}
+					for _, r3 := range *y.Referrers() {
+						s3, ok := r3.(*ssa.Store)
+						if !ok || s3.Addr != ssa.Value(y) || !before(s3) {
+							return nil, false
+						}
+						rows[idx].Args[y.Field] = ctx.Term(s3.Val)
+					}
+				default:
+					return nil, false
+				}
+			}
+		default:
+			return nil, false
+		}
+	}
+	// the slice itself is only ranged over (len, element reads)
+	for _, r := range *sl.Referrers() {
+		switch x := r.(type) {
+		case *ssa.IndexAddr:
+			for _, rr := range *x.Referrers() {
+				if u, ok := rr.(*ssa.UnOp); !ok || u.Op != token.MUL {
+					if _, isFA := rr.(*ssa.FieldAddr); !isFA {
+						return nil, false
+					}
+				}
+			}
+		case *ssa.Call:
+			if _, isLen := isBuiltinCall(x, "len"); !isLen {
+				return nil, false
+			}
+		case *ssa.DebugRef:
+		default:
+			return nil, false
+		}
+	}
+	for i, row := range rows {
+		if row == nil {
+			return nil, false
+		}
+		if isStruct {
+			for fi := range row.Args {
+				if row.Args[fi] == nil {
+					row.Args[fi] = zeroTerm(st.Field(fi).Type())
+				}
+			}
+		}
+		_ = i
+	}
+	return rows, true
 }
